@@ -340,6 +340,32 @@ def _zexpr(e, names, attr):
     raise Unsupported("integer expression " + ast.unparse(e)[:80])
 
 
+def _reduce_expr(e, var, scal):
+    """integer expression built from reductions over the 1-D array `var` -- var.min() / var.max(), np.min(var) / np.max(var), min(var) /
+    max(var) -- wrapped in int(...), combined with integer constants, + - * and two-argument min / max.  `scal` maps the reduction
+    ('min' / 'max') to its Coq text; a reduction missing from it is not accepted at this place"""
+    def red(kind):
+        if kind not in scal:
+            raise Unsupported(f"reduction {var}.{kind}() not accepted here")
+        return scal[kind]
+    if isinstance(e, ast.Constant) and isinstance(e.value, int) and not isinstance(e.value, bool):
+        return str(e.value) if e.value >= 0 else f"({e.value})"
+    if isinstance(e, ast.Call) and not e.keywords:
+        f = ast.unparse(e.func)
+        if f == "int" and len(e.args) == 1:
+            return _reduce_expr(e.args[0], var, scal)
+        if f in (f"{var}.min", f"{var}.max") and not e.args:
+            return red(f[-3:])
+        if f in ("np.min", "np.max", "np.amin", "np.amax", "min", "max") and len(e.args) == 1 and ast.unparse(e.args[0]) == var:
+            return red(f[-3:])
+        if f in ("min", "max") and len(e.args) == 2:
+            return f"(Z.{f} {_reduce_expr(e.args[0], var, scal)} {_reduce_expr(e.args[1], var, scal)})"
+    if isinstance(e, ast.BinOp) and type(e.op) in (ast.Add, ast.Sub, ast.Mult):
+        op = {ast.Add: "+", ast.Sub: "-", ast.Mult: "*"}[type(e.op)]
+        return f"({_reduce_expr(e.left, var, scal)} {op} {_reduce_expr(e.right, var, scal)})"
+    raise Unsupported("delay expression " + ast.unparse(e)[:80])
+
+
 def _kernel_call(stmt):
     if not (isinstance(stmt, ast.Expr) and isinstance(stmt.value, ast.Call) and ast.unparse(stmt.value.func) == "kernels.fold"):
         raise Unsupported("expected a call of kernels.fold, found: " + ast.unparse(stmt)[:80])
@@ -388,13 +414,13 @@ def gen_fil_site(repo, kmeta):
         v = ast.unparse(s.value)
         if t == "chan_delays" and "chan_delays" in seen:
             # delays referred to the earliest channel (kept non-negative for the kernel)
-            forms = {"chan_delays - min(0, int(chan_delays.min()))": "(d - (Z.min 0 dmin))", "chan_delays - min(int(chan_delays.min()), 0)": "(d - (Z.min dmin 0))",
-                     "chan_delays - chan_delays.min()": "(d - dmin)", "chan_delays - int(chan_delays.min())": "(d - dmin)"}
-            if v not in forms:
+            # translated: chan_delays = chan_delays -/+ <scalar built from chan_delays.min()>  ->  fold_delay_of dmin d
+            e = s.value
+            if not (isinstance(e, ast.BinOp) and type(e.op) in (ast.Sub, ast.Add) and isinstance(e.left, ast.Name) and e.left.id == "chan_delays"):
                 raise Unsupported("Filterbank.fold: second assignment of chan_delays: " + v)
             if "max_delay" in seen or shift_delays:
                 raise Unsupported("Filterbank.fold: chan_delays changed after max_delay was taken / changed twice")
-            shift_delays = forms[v]
+            shift_delays = f"(d {'-' if isinstance(e.op, ast.Sub) else '+'} {_reduce_expr(e.right, 'chan_delays', {'min': 'dmin'})})"
             continue
         if t in seen:
             raise Unsupported(f"Filterbank.fold: {t} assigned twice")
@@ -406,8 +432,10 @@ def gen_fil_site(repo, kmeta):
     extra = [n for n in seen if n not in need + ["nsamps_sel"]]
     if extra:
         raise Unsupported(f"Filterbank.fold: unexpected assignments before the loop: {extra}")
-    if ast.unparse(seen["chan_delays"]) != "self.header.get_dmdelays(dm)" or ast.unparse(seen["max_delay"]) != "int(chan_delays.max())":
+    if ast.unparse(seen["chan_delays"]) != "self.header.get_dmdelays(dm)":
         raise Unsupported("Filterbank.fold: delay computation changed")
+    # translated: max_delay as a reduction of the (shifted) delay vector over its nchans entries
+    max_delay_txt = _reduce_expr(seen["max_delay"], "chan_delays", {"min": "(vmin (Z.to_nat nchans) chan_delays)", "max": "(vmax (Z.to_nat nchans) chan_delays)"})
     names = {n: n for n in ("nbands", "nbins", "nints", "gulp", "start", "nsamps", "max_delay", "nsamps_r", "ii")}
     out.append(f"Definition fold_nbands (nbands nchans : Z) : Z := {_zexpr(seen['nbands'], names, attr)}.")
     out.append(f"Definition fold_gulp (max_delay gulp : Z) : Z := {_zexpr(seen['gulp'], names, attr)}.")
@@ -473,9 +501,12 @@ def gen_fil_site(repo, kmeta):
     out.append("Definition fold_block (data fold_ar count_ar chan_delays : arr) (max_delay : Z) (tsamp period accel : Q)\n"
                "    (hdr_nsamples start nsamps nsamps_none nsamps_r nchans nbins nints nbands ii gulp : Z) : arr * arr :=\n"
                f"  fold_run {' '.join(cargs)}.")
-    out.append("(* the delay handed to the kernel for a channel whose get_dmdelays value is d, dmin being the smallest value of that vector;")
-    out.append("   max_delay = int(chan_delays.max()) is taken after this *)")
+    out.append("(* the delay handed to the kernel for a channel whose get_dmdelays value is d, dmin = chan_delays.min() being the smallest value of that")
+    out.append("   vector (fold_dmin); chan_delays after the shift (fold_chan_delays); max_delay is taken after this, from: " + ast.unparse(seen["max_delay"]) + " *)")
     out.append(f"Definition fold_delay_of (dmin d : Z) : Z := {shift_delays if shift_delays else 'd'}.")
+    out.append("Definition fold_dmin (nchans : Z) (chan_delays : arr) : Z := (vmin (Z.to_nat nchans) chan_delays).")
+    out.append("Definition fold_chan_delays (nchans : Z) (raw : arr) : arr := fun c => fold_delay_of (fold_dmin nchans raw) (raw c).")
+    out.append(f"Definition fold_max_delay (nchans : Z) (chan_delays : arr) : Z := {max_delay_txt}.")
     out.append(f"Definition fold_delays_shifted : bool := {'true' if shift_delays else 'false'}.")
     if guard:
         out.append("(* size guard, raises ValueError when true: " + guard.replace("*)", "* )").replace("(*", "( *") + " *)")
